@@ -6,7 +6,14 @@ import (
 	"encoding/json"
 	"errors"
 	"fmt"
+	"os"
+	"reflect"
+	"runtime/debug"
+	"strings"
+	"sync"
+	"sync/atomic"
 	"testing"
+	"time"
 
 	"github.com/NethermindEth/juno/core"
 	"github.com/NethermindEth/juno/core/felt"
@@ -47,6 +54,7 @@ type replayInput struct {
 	Seed       int64    `json:"seed"`  // 0: $VH_SEED
 	Start      int      `json:"start"` // index of the first behaviour (per-behaviour randomness derives from it)
 	Behaviours [][]step `json:"behaviours"`
+	Concurrent bool     `json:"concurrent"` // also run the concurrent verify-while-storing round
 }
 
 // world tracks what exists on the stored chain, so that generated diffs are applicable.
@@ -80,6 +88,7 @@ type session struct {
 type pendingBlock struct {
 	o           *offer
 	commitments *core.BlockCommitments
+	snapshot    *core.BlockCommitments // deep copy taken when SanityCheckNewHeight returned
 }
 
 func cidKey(h int, shape, v string) string { return fmt.Sprintf("%d/%s/%s", h, shape, v) }
@@ -145,15 +154,37 @@ func (s *session) genContent(v string, shape string) (*content, error) {
 	case "full", "emptydiff":
 		txs, rcs = s.fullTxs()
 	case "bare":
-		for _, k := range []string{"invoke3", "l1handler"} {
-			tx := s.richTx(k)
+		for _, k := range []string{"invoke3", "l1handler", "l1handler-legacy"} {
+			var tx core.Transaction
+			if k == "l1handler-legacy" { // no nonce: juno takes the transaction's own hash (mainnet block 192 …)
+				l := s.richTx("l1handler").(*core.L1HandlerTransaction)
+				l.Nonce, l.TransactionHash = nil, g.Felt()
+				tx = l
+			} else {
+				tx = s.richTx(k)
+			}
+			if inv, ok := tx.(*core.InvokeTransaction); ok { // extreme values: the hash preimages must take them
+				inv.Tip = ^uint64(0)
+				inv.ResourceBounds[core.ResourceL2Gas] = core.ResourceBounds{MaxAmount: ^uint64(0), MaxPricePerUnit: maxFelt()}
+				inv.Nonce = maxFelt()
+				h, err := core.TransactionHash(inv, chainkit.Network)
+				if err != nil {
+					return nil, err
+				}
+				chainkit.SetTxHash(inv, &h)
+			}
 			r := g.Receipt(tx, nil)
 			r.Reverted, r.RevertReason, r.L2ToL1Message = false, "", []*core.L2ToL1Message{}
+			r.Fee = maxFelt()
+			r.ExecutionResources.TotalGasConsumed = &core.GasConsumed{L1Gas: ^uint64(0) - 1, L1DataGas: ^uint64(0) - 1, L2Gas: ^uint64(0)}
 			txs, rcs = append(txs, tx), append(rcs, r)
 		}
 	}
 	spec := chainkit.BlockSpec{Version: v, Diff: d, Classes: classes, Txs: txs, Receipts: rcs,
 		Timestamp: uint64(1_700_000_000 + g.R.Intn(1000)), Sequencer: g.Felt(), L1DAMode: core.L1DAMode(g.R.Intn(2))}
+	if shape == "bare" {
+		spec.Timestamp, spec.Sequencer = ^uint64(0)-1, maxFelt()
+	}
 	b, err := s.twin.Build(spec)
 	if err != nil {
 		return nil, err
@@ -291,12 +322,47 @@ type outcome struct {
 }
 
 // run pushes o through the pipeline exactly as sync does.
-func (s *session) run(o *offer) (out outcome) {
-	defer func() {
-		if r := recover(); r != nil {
-			out = outcome{Kind: "panic", Err: fmt.Sprint(r)}
-		}
+func (s *session) run(o *offer) outcome {
+	return guarded(func() outcome { return s.runUnguarded(o) })
+}
+
+// guarded runs a call into juno under recover and a deadline: a panic or a hang of the real code
+// is an outcome of the real code ("crash", "hang"), reported as a keyed divergence - never a dead
+// engine.
+func guarded(f func() outcome) outcome {
+	done := make(chan outcome, 1)
+	go func() {
+		defer func() {
+			if r := recover(); r != nil {
+				done <- outcome{Kind: "crash", Err: fmt.Sprintf("%v\n%s", r, firstJunoFrames())}
+			}
+		}()
+		done <- f()
 	}()
+	select {
+	case o := <-done:
+		return o
+	case <-time.After(hangAfter):
+		return outcome{Kind: "hang", Err: fmt.Sprintf("no return after %s", hangAfter)}
+	}
+}
+
+const hangAfter = 90 * time.Second
+
+func firstJunoFrames() string {
+	var out []string
+	for _, l := range strings.Split(string(debug.Stack()), "\n") {
+		if strings.Contains(l, "NethermindEth/juno") && !strings.HasPrefix(l, "\t") {
+			out = append(out, strings.TrimSpace(l))
+			if len(out) == 3 {
+				break
+			}
+		}
+	}
+	return strings.Join(out, " <- ")
+}
+
+func (s *session) runUnguarded(o *offer) (out outcome) {
 	commitments, err := s.node.BC.SanityCheckNewHeight(o.B, o.U, o.C)
 	if err != nil {
 		return outcome{Kind: "rejected", Stage: "verify", Err: err.Error()}
@@ -468,9 +534,44 @@ func TestBlockVerifyReplay(t *testing.T) {
 				c       *content
 				accepts *content // content that becomes part of the chain when accepted
 			)
+			if a.Name == "Restart" {
+				before, err := faultkv.Dump(s.fk)
+				if err != nil {
+					t.Fatal(err)
+				}
+				probeBefore := s.probe()
+				if a.Kind == "graceful" {
+					if err := s.node.BC.WriteRunningEventFilter(); err != nil {
+						diverge(i, "block-verify:restart:graceful-stop-failed", err.Error(), "ok", err.Error())
+						break steps
+					}
+				}
+				s.node = s.node.Restart()
+				s.pending = map[string]*pendingBlock{}
+				after, _ := faultkv.Dump(s.fk)
+				// a graceful stop persists the running event filter: the only bucket allowed to change
+				if d := faultkv.Diff(before, after, map[byte]bool{byte(db.RunningEventFilter): true}, 8); len(d) > 0 {
+					diverge(i, "block-verify:restart-changed-db:"+a.Kind, "a restart changed the database", "unchanged", d)
+					break steps
+				}
+				if d := diffProbe(probeBefore, s.probe()); len(d) > 0 {
+					diverge(i, "block-verify:restart-changed-reads:"+a.Kind, "reads differ after a restart", "unchanged", d)
+					break steps
+				}
+				stages["Restart:"+a.Kind]++
+				if msg := s.compareChain(st); msg != "" {
+					diverge(i, "block-verify:chain-mismatch:Restart", msg, st.Chain, nil)
+					break steps
+				}
+				continue steps
+			}
 			if a.Name != "StorePending" {
 				if c, err = s.pristine(a); err != nil {
-					t.Fatalf("behaviour %d step %d: build: %v", idx, i, err)
+					// the producer (the real Simulate on the twin) refuses a block the specification
+					// allows: a verdict about the code (this never happens on a tree where C02 holds)
+					diverge(i, fmt.Sprintf("block-verify:producer-failed:%s:%s", a.Var, a.V),
+						fmt.Sprintf("Simulate cannot build a valid %s block of version %s at height %d: %v", a.Var, a.V, a.H, err), "built", err.Error())
+					break steps
 				}
 				o = offerOf(c.built)
 			}
@@ -562,18 +663,21 @@ func TestBlockVerifyReplay(t *testing.T) {
 			case "OfferCommitFails":
 				s.fk.Arm(faultkv.FailAt, 1, nil)
 				outc = s.run(o)
-				fired := s.fk.Fired()
-				s.fk.Disarm()
-				if !fired {
-					t.Fatalf("behaviour %d step %d: commit fault did not fire (%+v)", idx, i, outc)
-				}
+				s.fk.Disarm() // (a Store that never reaches a durable write is judged by its outcome below)
 			case "VerifyAhead":
-				cm, err := s.node.BC.SanityCheckNewHeight(o.B, o.U, o.C)
-				if err != nil {
+				var cm *core.BlockCommitments
+				var err error
+				if g := guarded(func() outcome {
+					cm, err = s.node.BC.SanityCheckNewHeight(o.B, o.U, o.C)
+					return outcome{}
+				}); g.Kind != "" {
+					outc = g
+				} else if err != nil {
 					outc = outcome{Kind: "rejected", Stage: "verify", Err: err.Error()}
 				} else {
 					outc = outcome{Kind: "verified", Stage: "verify"}
-					s.pending[cidKey(a.H, a.Var, a.V)] = &pendingBlock{o: o, commitments: cm}
+					s.pending[cidKey(a.H, a.Var, a.V)] = &pendingBlock{o: o, commitments: cm,
+						snapshot: deepCopy(reflect.ValueOf(cm)).Interface().(*core.BlockCommitments)}
 				}
 			case "StorePending":
 				k := cidKey(a.H, a.Var, a.V)
@@ -583,16 +687,34 @@ func TestBlockVerifyReplay(t *testing.T) {
 				}
 				delete(s.pending, k)
 				c = s.cache[k]
-				if err := s.node.BC.Store(pb.o.B, pb.commitments, pb.o.U, pb.o.C); err != nil {
-					outc = outcome{Kind: "rejected", Stage: "store", Err: err.Error()}
-				} else {
-					outc, accepts = outcome{Kind: "accepted", Stage: "store"}, c
+				// what SanityCheckNewHeight handed back must not have changed while other blocks were
+				// verified and stored in between, and must be what the producer computed
+				if !reflect.DeepEqual(pb.commitments, pb.snapshot) || !reflect.DeepEqual(pb.snapshot, c.built.Commitments) {
+					diverge(i, "block-verify:retained-commitments-changed",
+						"the commitments returned by SanityCheckNewHeight changed after later calls / differ from the producer's", pb.snapshot, pb.commitments)
+					break steps
+				}
+				outc = guarded(func() outcome {
+					if err := s.node.BC.Store(pb.o.B, pb.commitments, pb.o.U, pb.o.C); err != nil {
+						return outcome{Kind: "rejected", Stage: "store", Err: err.Error()}
+					}
+					return outcome{Kind: "accepted", Stage: "store"}
+				})
+				if outc.Kind == "accepted" {
+					accepts = c
 				}
 			default:
 				t.Fatalf("unknown action %q", a.Name)
 			}
-			if outc.Kind == "panic" {
-				t.Fatalf("behaviour %d step %d %s %s: juno panicked: %s", idx, i, a.Name, a.F, outc.Err)
+			if outc.Kind == "crash" || outc.Kind == "hang" {
+				diverge(i, fmt.Sprintf("block-verify:%s:%s:%s", outc.Kind, a.Name, a.F),
+					fmt.Sprintf("%s(%s %s %s %s) at height %d: juno did not return a verdict: %s %s", a.Name, a.V, a.Var, a.F, a.Kind, a.H, outc.Kind, outc.Err),
+					st.Res, outc)
+				if outc.Kind == "hang" { // the stuck goroutine cannot be stopped: report and leave
+					_ = out.Write()
+					os.Exit(1)
+				}
+				break steps
 			}
 			stages[a.Name+":"+st.Res.Why+"->"+outc.Kind+"@"+outc.Stage]++
 			shapeOffers[a.Name+"/"+a.Kind+"/"+a.Seal+"/"+a.Var+fmt.Sprintf("/h>0=%v", a.H > 0)]++
@@ -629,7 +751,13 @@ func TestBlockVerifyReplay(t *testing.T) {
 			// (3) an accepted block is the head; the chain is the specification's
 			if outc.Kind == "accepted" {
 				if err := s.twin.StoreBuilt(accepts.built); err != nil {
-					t.Fatalf("behaviour %d step %d: twin refuses the accepted block: %v", idx, i, err)
+					diverge(i, "block-verify:twin-disagrees:"+a.Name, "a second node with the same chain refuses the block the first one stored: "+err.Error(), "accepted", err.Error())
+					break steps
+				}
+				// the stored commitments are the producer's
+				if cm, err := s.node.BC.BlockCommitmentsByNumber(accepts.built.Block.Number); err != nil || !reflect.DeepEqual(cm, accepts.built.Commitments) {
+					diverge(i, "block-verify:stored-commitments:"+a.Name, "stored block commitments differ from the producer's", accepts.built.Commitments, fmt.Sprint(cm, err))
+					break steps
 				}
 				s.w.apply(accepts)
 			}
@@ -639,6 +767,9 @@ func TestBlockVerifyReplay(t *testing.T) {
 			}
 		}
 		out.Sample(vh.J{"behaviour": idx, "steps": beh})
+	}
+	if in.Concurrent {
+		concurrentVerify(out, seed, vh.J{"seed": seed, "start": in.Start, "behaviours": [][]step{}, "concurrent": true})
 	}
 	out.Done(len(in.Behaviours), nsteps)
 	out.Stats["tamper_cases_replayed"] = len(covered)
@@ -706,4 +837,104 @@ func (s *session) compareChain(st step) string {
 		}
 	}
 	return ""
+}
+
+// maxFelt is p-1, the largest field element.
+func maxFelt() *felt.Felt { return new(felt.Felt).Sub(new(felt.Felt), &one) }
+
+// concurrentVerify: the sync pipeline verifies blocks on several goroutines while another one
+// stores. SanityCheckNewHeight does not depend on the head, so the specification's verdict for an
+// offer is the same at any moment: a builder-made block verifies, the same block with one committed
+// field altered does not - for the writer's whole lifetime. The monitors are the spec's VerifyWhy.
+func concurrentVerify(out *vh.Result, seed int64, replay any) {
+	for _, newState := range []bool{false, true} {
+		s := &session{g: chainkit.NewGen(seed*7919 + 1), node: chainkit.NewNode(nil, newState), twin: chainkit.NewNode(nil, newState),
+			w: &world{slots: map[felt.Felt][]felt.Felt{}, casmV2: map[felt.Felt]felt.Felt{}}, cache: map[string]*content{}}
+		var chain []*content
+		for i, v := range []string{"0.13.2", "0.13.4", "0.14.0", "0.14.0", "0.14.1", "0.14.1"} {
+			c, err := s.genContent(v, []string{"full", "emptydiff", "full", "bare", "full", "empty"}[i])
+			if err != nil {
+				out.Diverge(vh.Divergence{Key: "block-verify:producer-failed:concurrent", What: err.Error(), Input: replay})
+				return
+			}
+			if err := s.twin.StoreBuilt(c.built); err != nil {
+				out.Diverge(vh.Divergence{Key: "block-verify:producer-failed:concurrent", What: err.Error(), Input: replay})
+				return
+			}
+			s.w.apply(c)
+			chain = append(chain, c)
+		}
+		fields := []string{"hdr.timestamp", "rc.fee", "tx.invoke3.tip", "ev.from", "sd.storage.value", "hdr.l1_gas_price_wei", "txs.reorder", "msg.payload.elem"}
+		var stop atomic.Bool
+		var wg sync.WaitGroup
+		var mu sync.Mutex
+		report := func(key, what string) {
+			mu.Lock()
+			defer mu.Unlock()
+			out.Diverge(vh.Divergence{Key: key, What: fmt.Sprintf("[newState=%v] %s", newState, what), Input: replay})
+		}
+		checks := int64(0)
+		for w := 0; w < 4; w++ {
+			wg.Add(1)
+			go func(w int) {
+				defer wg.Done()
+				defer func() {
+					if r := recover(); r != nil {
+						report("block-verify:concurrent:crash", fmt.Sprintf("verifier panicked: %v %s", r, firstJunoFrames()))
+					}
+				}()
+				for n := w; !stop.Load() || n < w+len(chain)*2; n++ { // at least two passes, and as long as the writer lives
+					c := chain[n%len(chain)]
+					v := offerOf(c.built)
+					if _, err := s.node.BC.SanityCheckNewHeight(v.B, v.U, v.C); err != nil {
+						report("block-verify:concurrent:rejected-valid", fmt.Sprintf("block %d does not verify while other blocks are verified and stored: %v", c.built.Block.Number, err))
+						return
+					}
+					o := offerOf(c.built)
+					f := fields[(n/len(chain)+w)%len(fields)]
+					if mutatorFor(f)(o) {
+						if _, err := s.node.BC.SanityCheckNewHeight(o.B, o.U, o.C); err == nil {
+							report("block-verify:concurrent:accepted-tamper:"+f, fmt.Sprintf("block %d with %s altered verifies while other blocks are verified and stored", c.built.Block.Number, f))
+							return
+						}
+					}
+					atomic.AddInt64(&checks, 2)
+				}
+			}(w)
+		}
+		func() {
+			defer stop.Store(true)
+			defer func() {
+				if r := recover(); r != nil {
+					report("block-verify:concurrent:crash", fmt.Sprintf("writer panicked: %v %s", r, firstJunoFrames()))
+				}
+			}()
+			for round := 0; round < 3; round++ { // store the chain, revert it, store it again: a long-lived writer
+				for _, c := range chain {
+					if out := s.runUnguarded(offerOf(c.built)); out.Kind != "accepted" {
+						report("block-verify:concurrent:rejected-valid", fmt.Sprintf("writer: block %d refused: %s", c.built.Block.Number, out.Err))
+						return
+					}
+				}
+				if round < 2 {
+					for range chain {
+						if err := s.node.BC.RevertHead(); err != nil {
+							report("block-verify:concurrent:revert-failed", err.Error())
+							return
+						}
+					}
+				}
+			}
+		}()
+		done := make(chan struct{})
+		go func() { wg.Wait(); close(done) }()
+		select {
+		case <-done:
+		case <-time.After(hangAfter):
+			report("block-verify:concurrent:hang", "verifiers did not finish")
+			_ = out.Write()
+			os.Exit(1)
+		}
+		out.Count("concurrent_verifications", int(checks))
+	}
 }
